@@ -10,7 +10,7 @@ from . import common
 
 ID = "C16"
 LEVEL = "exploration"
-BUDGET = {"quick": 800, "thorough": 70000}
+BUDGET = {"quick": 1600, "thorough": 70000}
 TECHNIQUE = "property-based testing: structure against the generator's mesh, per-level per-box metamorphic data oracles, poison differential"
 RULE = ("As C07 (nested 3D plotfiles with analytic fields A / K / T / R, constructed positions, 3 normals, level limits, "
         "field lists in any order, a quarter with 'grid_level' at a drawn position) plus ~15% inputs whose written slice exceeds the 1 MB file-splitting threshold (64x64 footprint, "
